@@ -173,4 +173,36 @@ def specRun : List (Option Bytes) → List Ev → List Obs
 /-- `putBuffer` without the line `e.Reset()`. -/
 def Pool.badPut (p : Pool) (b : Buffer) : Pool := { free := b :: p.free }
 
+/-! ### Object identity (for the negative theorems about the source premises)
+
+The value model above cannot express a holder that keeps using a buffer after `put` (a `put` that is
+not the deferred last action; a slice returned by `Bytes()` that is kept instead of copied): there a
+slot is given up at `put`.  Here buffers live at addresses, the pool parks ADDRESSES, and nothing stops
+a holder from using an address it has put back. -/
+
+/-- the heap of `bytes.Buffer` objects and the addresses parked in the pool -/
+structure HWorld where
+  heap : List Buffer := []
+  free : List Nat := []
+deriving Repr
+
+/-- `getBuffer()`: the most recently parked address if there is one (one of `sync.Pool`'s possible
+    choices — a per-P pool hands back what the same P just put), else a new object. -/
+def HWorld.get (G : Growth) (w : HWorld) (n : Nat) : Nat × HWorld :=
+  match w.free with
+  | a :: rest => (a, { w with free := rest })
+  | [] => (w.heap.length, { w with heap := w.heap ++ [Buffer.fresh G n] })
+
+/-- `putBuffer(e)`: `e.Reset()` on the object, then its address is parked. -/
+def HWorld.put (w : HWorld) (a : Nat) : HWorld :=
+  { heap := w.heap.modify a Buffer.reset, free := a :: w.free }
+
+/-- a write through a pointer (valid or stale) -/
+def HWorld.write (G : Growth) (w : HWorld) (a : Nat) (p : Bytes) : HWorld :=
+  { w with heap := w.heap.modify a (fun b => b.write G p) }
+
+/-- the contents behind a pointer / behind a slice obtained from `Bytes()` earlier (the slice shares the
+    buffer's array: as long as the buffer has not grown, reading it reads the array) -/
+def HWorld.read (w : HWorld) (a : Nat) : Bytes := (w.heap[a]?.map Buffer.bytes).getD []
+
 end Atree.Buf
